@@ -5,14 +5,15 @@ from storefam import gen_many, run_templates, replay_store
 from httpfam import run_http_templates
 
 AUDIT = "Audit/C07.lean"
-MODULE = "Xandikos.Theorems.C07"
+MODULE = "Xandikos.Theorems.C07Code"
 PREFIXES = ('C07:',)
 PROFILE = 'sync'
 
 
 def run(chk):
     chk.rule = ('histories of writes/deletes/reverts with iter_changes requested for every token issued so far, the empty token and foreign tokens, on the git back ends; case = (back end, resolved history); non-trivial = at least two mutating operations')
-    chk.lean_obligations(MODULE, AUDIT)
+    import transval
+    chk.lean_obligations(MODULE, AUDIT, regen=lambda c: transval.regen(c, ["IterChanges"]))
     toks = Tokens()
     n = 12 if chk.tier == "quick" else 150
     tmpls = gen_many(chk, toks, n, 25 if chk.tier == "quick" else 40, PROFILE)
